@@ -259,7 +259,9 @@ Fixpoint hold_deps (ch : nat) (vs : list (Q * option (list Q))) : deps_t :=
   | _ :: vs' => hold_deps (S ch) vs'
   end.
 
-Definition all_empty (l : list (list Q)) : bool := forallb (fun d => match d with [] => true | _ => false end) l.
+(* python set equality of two sets of float tuples (used for `shortened != {()}`) *)
+Definition qsub_b (a b : list (list Q)) : bool := forallb (fun x => existsb (qlist_eqb x) b) a.
+Definition qset_eqb (a b : list (list Q)) : bool := qsub_b a b && qsub_b b a.
 
 Fixpoint node_deps (n : node) : deps_t :=
   match n with
@@ -277,7 +279,7 @@ Fixpoint node_deps (n : node) : deps_t :=
          | x :: l' =>
              go l' (fold_left (fun a cd =>
                                  let shortened := map (@removelast Q) (snd cd) in
-                                 if all_empty shortened then a else deps_add (fst cd) shortened a)
+                                 if qset_eqb shortened [[]] then a else deps_add (fst cd) shortened a)
                               (node_deps x) acc)
          end) body []
   end.
